@@ -48,6 +48,11 @@ def cse(expressions, cse_concat=True, cse_in_brackets=False, verbose=False):
         if len(used_axis_ids) == 0:
             continue
 
+        # A subexpression that contains an axis of fixed length (e.g. the 3 in "(b 3)") cannot take arbitrary values,
+        # so replacing it with a single free axis would drop a divisibility constraint.
+        if any(isinstance(v, Axis) and v.value is not None for exprlist in str_to_common_expr[str_expr] for expr in exprlist for v in expr.nodes()):
+            continue
+
         axes_used_only_in_this_subexpression = True
         for root in expressions:
             if root is not None:
